@@ -247,8 +247,11 @@ type joeScenario struct {
 }
 
 func topicStr(t int) string {
-	if t == 0 {
+	switch t {
+	case 0:
 		return sse.DefaultTopic
+	case 3:
+		return "t1,t2" // one topic whose name looks like a list of two
 	}
 	return fmt.Sprintf("t%d", t)
 }
@@ -296,7 +299,7 @@ func drawScenario(rng *rand.Rand, big bool) joeScenario {
 			}
 		}
 	}
-	nt := 1 + rng.Intn(3)
+	nt := 1 + rng.Intn(4)
 	drawTopics := func(allowEmpty bool) []int {
 		var ts []int
 		for t := 0; t < nt; t++ {
